@@ -31,7 +31,7 @@ class DefaultRegister(Register):
         if storage not in ["BINARY"]:
             self.data = file.readline()
         else:
-            self.data = None
+            self.data = file.read(1)
         return True
 
     def write(self, file: IO, storage: str = "", *args, **kwargs) -> bool:
@@ -45,5 +45,7 @@ class DefaultRegister(Register):
         :rtype: bool
         """
         if storage not in ["BINARY"]:
+            file.write(self.data)
+        elif isinstance(self.data, bytes):
             file.write(self.data)
         return True
